@@ -627,7 +627,10 @@ def gen_valid_deck(rng, features=None):
             a = {'id': base + 2 * axis + 1, 'tr': None, 'mn': mn, 'params': [hi]}
             b = {'id': base + 2 * axis + 2, 'tr': None, 'mn': mn, 'params': [lo]}
             deck['surfs'] += [a, b]
-            planes += [[-a['id'], None], [b['id'], None]]
+            if rng.random() < 0.3:
+                planes += [[b['id'], None], [-a['id'], None]]
+            else:
+                planes += [[-a['id'], None], [b['id'], None]]
         ranges = []
         for axis in range(ndim):
             lo = rng.choice([-1, 0, 0])
@@ -655,6 +658,11 @@ def gen_valid_deck(rng, features=None):
             latcell['opts'] = (f'u={lat_u} lat={2 if hexa else 1} fill='
                                + ' '.join(f'{lo}:{hi}' for lo, hi in written)
                                + ' ' + ' '.join(str(u) for u in array))
+        if 'trcl' in features and not hexa and rng.random() < 0.4:
+            # a lattice cell moved as a whole
+            latcell['opts'] = latcell['opts'].replace(
+                ' fill=', ' trcl=(' + ' '.join(
+                    num(_c(rng)) for _ in range(3)) + ') fill=', 1)
         latcell['ranges'] = written
         latcell['ndim'] = ndim
         sub = new_cell(lits_of(rng.randint(1, 2), False))
